@@ -90,11 +90,14 @@ where
     T1: TryFrom<Value>,
 {
     fn call(&self, vm: &mut Vm<Aux>) -> ShallowExecutionResult {
-        // the parameters stay on the stack (rooted) while the function runs, it may allocate
-        let v1 = vm.runtime_data.value_stack.peek_last(0);
-        let v1 =
-            T1::try_from(v1).map_err(|_| conversion_error(1, type_name::<T1>(), v1.type_name()))?;
-        let res = self(vm, v1);
+        // the parameters stay on the stack (rooted) while the function runs, it may allocate;
+        // they are consumed whether or not the conversion and the call succeed
+        let res = (|| {
+            let v1 = vm.runtime_data.value_stack.peek_last(0);
+            let v1 = T1::try_from(v1)
+                .map_err(|_| conversion_error(1, type_name::<T1>(), v1.type_name()))?;
+            self(vm, v1)
+        })();
         vm.runtime_data.value_stack.pop_n::<1>();
         res
     }
@@ -106,14 +109,17 @@ where
     T2: TryFrom<Value>,
 {
     fn call(&self, vm: &mut Vm<Aux>) -> ShallowExecutionResult {
-        // the parameters stay on the stack (rooted) while the function runs, it may allocate
-        let v2 = vm.runtime_data.value_stack.peek_last(0);
-        let v2 =
-            T2::try_from(v2).map_err(|_| conversion_error(2, type_name::<T2>(), v2.type_name()))?;
-        let v1 = vm.runtime_data.value_stack.peek_last(1);
-        let v1 =
-            T1::try_from(v1).map_err(|_| conversion_error(1, type_name::<T1>(), v1.type_name()))?;
-        let res = self(vm, v1, v2);
+        // the parameters stay on the stack (rooted) while the function runs, it may allocate;
+        // they are consumed whether or not the conversion and the call succeed
+        let res = (|| {
+            let v2 = vm.runtime_data.value_stack.peek_last(0);
+            let v2 = T2::try_from(v2)
+                .map_err(|_| conversion_error(2, type_name::<T2>(), v2.type_name()))?;
+            let v1 = vm.runtime_data.value_stack.peek_last(1);
+            let v1 = T1::try_from(v1)
+                .map_err(|_| conversion_error(1, type_name::<T1>(), v1.type_name()))?;
+            self(vm, v1, v2)
+        })();
         vm.runtime_data.value_stack.pop_n::<2>();
         res
     }
@@ -126,17 +132,20 @@ where
     T3: TryFrom<Value>,
 {
     fn call(&self, vm: &mut Vm<Aux>) -> ShallowExecutionResult {
-        // the parameters stay on the stack (rooted) while the function runs, it may allocate
-        let v3 = vm.runtime_data.value_stack.peek_last(0);
-        let v3 =
-            T3::try_from(v3).map_err(|_| conversion_error(3, type_name::<T3>(), v3.type_name()))?;
-        let v2 = vm.runtime_data.value_stack.peek_last(1);
-        let v2 =
-            T2::try_from(v2).map_err(|_| conversion_error(2, type_name::<T2>(), v2.type_name()))?;
-        let v1 = vm.runtime_data.value_stack.peek_last(2);
-        let v1 =
-            T1::try_from(v1).map_err(|_| conversion_error(1, type_name::<T1>(), v1.type_name()))?;
-        let res = self(vm, v1, v2, v3);
+        // the parameters stay on the stack (rooted) while the function runs, it may allocate;
+        // they are consumed whether or not the conversion and the call succeed
+        let res = (|| {
+            let v3 = vm.runtime_data.value_stack.peek_last(0);
+            let v3 = T3::try_from(v3)
+                .map_err(|_| conversion_error(3, type_name::<T3>(), v3.type_name()))?;
+            let v2 = vm.runtime_data.value_stack.peek_last(1);
+            let v2 = T2::try_from(v2)
+                .map_err(|_| conversion_error(2, type_name::<T2>(), v2.type_name()))?;
+            let v1 = vm.runtime_data.value_stack.peek_last(2);
+            let v1 = T1::try_from(v1)
+                .map_err(|_| conversion_error(1, type_name::<T1>(), v1.type_name()))?;
+            self(vm, v1, v2, v3)
+        })();
         vm.runtime_data.value_stack.pop_n::<3>();
         res
     }
@@ -151,20 +160,23 @@ where
     T4: TryFrom<Value>,
 {
     fn call(&self, vm: &mut Vm<Aux>) -> ShallowExecutionResult {
-        // the parameters stay on the stack (rooted) while the function runs, it may allocate
-        let v4 = vm.runtime_data.value_stack.peek_last(0);
-        let v4 =
-            T4::try_from(v4).map_err(|_| conversion_error(4, type_name::<T4>(), v4.type_name()))?;
-        let v3 = vm.runtime_data.value_stack.peek_last(1);
-        let v3 =
-            T3::try_from(v3).map_err(|_| conversion_error(3, type_name::<T3>(), v3.type_name()))?;
-        let v2 = vm.runtime_data.value_stack.peek_last(2);
-        let v2 =
-            T2::try_from(v2).map_err(|_| conversion_error(2, type_name::<T2>(), v2.type_name()))?;
-        let v1 = vm.runtime_data.value_stack.peek_last(3);
-        let v1 =
-            T1::try_from(v1).map_err(|_| conversion_error(1, type_name::<T1>(), v1.type_name()))?;
-        let res = self(vm, v1, v2, v3, v4);
+        // the parameters stay on the stack (rooted) while the function runs, it may allocate;
+        // they are consumed whether or not the conversion and the call succeed
+        let res = (|| {
+            let v4 = vm.runtime_data.value_stack.peek_last(0);
+            let v4 = T4::try_from(v4)
+                .map_err(|_| conversion_error(4, type_name::<T4>(), v4.type_name()))?;
+            let v3 = vm.runtime_data.value_stack.peek_last(1);
+            let v3 = T3::try_from(v3)
+                .map_err(|_| conversion_error(3, type_name::<T3>(), v3.type_name()))?;
+            let v2 = vm.runtime_data.value_stack.peek_last(2);
+            let v2 = T2::try_from(v2)
+                .map_err(|_| conversion_error(2, type_name::<T2>(), v2.type_name()))?;
+            let v1 = vm.runtime_data.value_stack.peek_last(3);
+            let v1 = T1::try_from(v1)
+                .map_err(|_| conversion_error(1, type_name::<T1>(), v1.type_name()))?;
+            self(vm, v1, v2, v3, v4)
+        })();
         vm.runtime_data.value_stack.pop_n::<4>();
         res
     }
